@@ -11,6 +11,7 @@ import FP.Model.Compare
 import FP.Lemmas.Compare
 import FP.Lemmas.Dec
 import FP.Model.LayoutPrec
+import FP.Model.Eval
 namespace FP.Props.C05
 open FP FP.Model FP.Lemmas
 
@@ -303,5 +304,46 @@ theorem precision_tables_are_the_layouts :
     dateMap.all (fun p => p.2 == Text.impliedPrecision (Text.goLayout p.1.toList)) = true ∧
     dateTimeMap.all (fun p => p.2 == Text.impliedPrecision (Text.goLayout p.1.toList)) = true ∧
     timeMap.all (fun p => p.2 + 3 == Text.impliedPrecision (Text.goLayout p.1.toList)) = true := by decide +kernel
+
+/-! ### the operators on whole expressions (the assembled evaluator, FP.Model.Eval) -/
+
+section Expr
+open FP.Model.Eval
+
+/-- the Boolean items of a result negated (other items cannot occur in the result of a comparison) -/
+def notVals (c : List Val) : List Val := c.map fun v => match v with | .bool b => .bool (!b) | v => v
+
+theorem notVals_bools (l : List Bool) : notVals (bools l) = bools (l.map (!·)) := by
+  simp [notVals, bools, List.map_map, Function.comp_def]
+
+/-- whatever the operand expressions are (paths, arithmetic, calls, literals of any type — temporal
+    and quantity literals included), `l != r` is the negation of `l = r`: same emptiness, same errors -/
+theorem expr_ne_is_negation (env : Env) (l r : E) (input : List Val) :
+    eval env (.eq true l r) input = mapRes notVals (eval env (.eq false l r) input) := by
+  simp only [eval]
+  cases eval env l input <;> simp [Res.bind, mapRes]
+  cases eval env r input <;> simp [Res.bind, mapRes, ne_is_negation, notVals_bools]
+
+/-- `l <= r` is the negation of `l > r` and `l >= r` of `l < r`, on whole expressions -/
+theorem expr_le_is_not_gt (env : Env) (l r : E) (input : List Val) :
+    eval env (.cmp .le l r) input = mapRes notVals (eval env (.cmp .gt l r) input) ∧
+    eval env (.cmp .ge l r) input = mapRes notVals (eval env (.cmp .lt l r) input) := by
+  simp only [eval]
+  cases eval env l input <;> simp [Res.bind, mapRes]
+  cases eval env r input <;> simp [Res.bind, mapRes, le_is_not_gt, ge_is_not_lt]
+  constructor
+  · cases cmpExpr .gt _ _ <;> simp [Res.bind, mapRes, notVals_bools]
+  · cases cmpExpr .lt _ _ <;> simp [Res.bind, mapRes, notVals_bools]
+
+/-- temporal literals through the whole pipeline, by kernel evaluation of the source texts: offsets are
+    normalised before instants are compared, a precision mismatch is empty, hour-precision values with an
+    offset are compared after normalisation -/
+example : run FP.Gen.FuncTable.baseTable "@2020-01-01T10:00:00+05:30 < @2020-01-01T05:00:00Z" [] [] = .result [.bool true] ∧
+    run FP.Gen.FuncTable.baseTable "@2020-01 < @2020-01-15" [] [] = .result [] ∧
+    run FP.Gen.FuncTable.baseTable "@2020-01-01T10+00:30 = @2020-01-01T09Z" [] [] = .result [.bool true] ∧
+    run FP.Gen.FuncTable.baseTable "@T10:30 != @T10:30:00" [] [] = .result [] := by decide +kernel
+
+end Expr
+
 
 end FP.Props.C05
